@@ -73,17 +73,33 @@ func VerifC20History() {
 		}
 		return w.e.Put(ctx, ts, nil) == nil
 	}
-	accepted, holderNotWritable := false, false
+	// which holders of a copy were not writable when the engine accepted the removal
+	accepted := false
+	holderState := ""
+	removalName := [...]string{"", "garbage mark", "tombstone"}[kind]
 	if kind != 0 {
 		setModes("modeAtRemoval", nm)
+		ro, deg := false, false
 		for i := range w.shards {
-			if holds(i) && w.shards[i].GetMode() != mode.ReadWrite {
-				holderNotWritable = true
+			if holds(i) {
+				switch m := w.shards[i].GetMode(); {
+				case m.NoMetabase():
+					deg = true
+				case m.ReadOnly():
+					ro = true
+				}
 			}
 		}
 		accepted = remove()
-		if !accepted {
-			holderNotWritable = false
+		if accepted {
+			switch {
+			case ro && deg:
+				holderState = "read-only and degraded"
+			case ro:
+				holderState = "read-only"
+			case deg:
+				holderState = "degraded"
+			}
 		}
 		if vrt.Bool("removalRetriedWithAllShardsWritable") {
 			allRW()
@@ -115,8 +131,8 @@ func VerifC20History() {
 		vrt.Assert(herr == nil && hdr != nil && hdr.GetID() == addr.Object(), "the header of a stored object that was not removed is returned whatever the shard modes and order")
 		vrt.Reach("found")
 	case accepted && !readWithoutMeta:
-		if holderNotWritable {
-			vrt.Assert(err != nil && herr != nil, "an object whose removal the engine reported as done is not returned any more (a shard holding a copy was not writable when the removal was accepted)")
+		if holderState != "" {
+			vrt.Assert(err != nil && herr != nil, "an object whose removal the engine reported as done is not returned any more ("+removalName+" accepted while a shard holding a copy was "+holderState+")")
 		} else {
 			vrt.Assert(err != nil && herr != nil, "an object whose removal the engine reported as done is not returned any more")
 		}
